@@ -438,10 +438,11 @@ def _octave_edges(state):
 CHROMA_KEYS = [k for k in FUNCS[0].keys if k.startswith("Chroma")]
 TASK.edge_space = edge_space
 TASK.edges = {
-    "shift": {"apply": _shift_edges, "funcs": None, "keys": None},
+    "shift": {"apply": _shift_edges, "funcs": None, "keys": None, "cfgs": "all"},
     # the property claims precision / recall (/ F, here accuracy) under permutations of the frequencies of a frame
     "permute": {"apply": _perm_edges, "funcs": None,
-                "keys": ["Precision", "Recall", "Accuracy", "Chroma Precision", "Chroma Recall", "Chroma Accuracy"]},
+                "keys": ["Precision", "Recall", "Accuracy", "Chroma Precision", "Chroma Recall", "Chroma Accuracy"],
+                "cfgs": "all"},
     "pitchscale": {"apply": _scale_edges, "funcs": None, "keys": None},
     "octave": {"apply": _octave_edges, "funcs": None, "keys": CHROMA_KEYS},
 }
